@@ -52,9 +52,11 @@ func main() {
 				for _, k := range keys {
 					lookup(s, j, k, hlib.F("paused-join:%v", ids))
 				}
+				// every neighbour is asked for every key: the bootstrap node of a one-node ring is in a unique
+				// state here (predecessor = joiner, successor still itself)
 				for _, m := range members {
-					for i := 0; i < 3; i++ {
-						lookup(s, m, hlib.Pick(rng, keys), hlib.F("paused-join-nb:%v", ids))
+					for _, k := range keys {
+						lookup(s, m, k, hlib.F("paused-join-nb:%v", ids))
 					}
 				}
 				run.Count("paused-join")
